@@ -62,7 +62,7 @@ pub fn main_entry() {
         }
         "run" => {
             let id = args.get(2).cloned().unwrap_or_default();
-            let mut a = WorkerArgs { tier: Tier::Quick, seed: 1, shard: 0, nshards: 1, out: String::new(), only_idx: None, max_cases: None };
+            let mut a = WorkerArgs { tier: Tier::Quick, seed: 1, shard: 0, nshards: 1, out: String::new(), only_idx: None, max_cases: None, from_pos: None };
             let mut i = 3;
             while i + 1 < args.len() + 1 && i < args.len() {
                 let v = args.get(i + 1).cloned().unwrap_or_default();
@@ -74,6 +74,7 @@ pub fn main_entry() {
                     "--out" => a.out = v,
                     "--idx" => a.only_idx = v.parse().ok(),
                     "--max-cases" => a.max_cases = v.parse().ok(),
+                    "--from-pos" => a.from_pos = v.parse().ok(),
                     other => {
                         eprintln!("unknown argument {other}");
                         std::process::exit(2);
